@@ -220,3 +220,56 @@ func VerifC07CommitOutdated() {
 	w.size["new"], w.prio["new"] = r.Size(), r.Priority()
 	w.checkStep("new", &spec, zone, upd, before, w.snap(ids), ids, false)
 }
+
+// VerifC07ReallocBumped: re-allocation into a zone that is itself
+// oversubscribed. Five nodes (four DRAM on a line and a PMEM node) of equal
+// symbolic capacity; immovable reservations of symbolic size on the
+// overlapping node sets {0,1} and {1,2}, a Burstable request X on {0}; X is
+// re-allocated to also cover a solver-chosen node, which may push X itself
+// further out; then once more with a type mask. Every successful
+// re-allocation obeys the placement rules: the returned zone is the assigned
+// one, nothing shrinks, updates are exact.
+func VerifC07ReallocBumped() {
+	capacity := verifNondetInt64("cap")
+	verifAssume(verifAnd(capacity >= 1, capacity <= verifMaxBytes))
+	w := verifLayoutCaps(4, []int64{capacity, capacity, capacity, capacity, capacity})
+	sizes := []int64{verifNondetInt64("size"), verifNondetInt64("size"), verifNondetInt64("size")}
+	for _, s := range sizes {
+		verifAssume(verifAnd(s >= 1, s <= verifMaxBytes))
+	}
+	specs := []verifSpec{
+		{limit: sizes[0], affinity: NewNodeMask(0, 1), prio: Reservation},
+		{limit: sizes[1], affinity: NewNodeMask(1, 2), prio: Reservation},
+		{limit: sizes[2], affinity: NewNodeMask(0), prio: Burstable},
+	}
+	w.buildFrom(specs)
+	if len(w.ids) != 3 {
+		return
+	}
+	x := "r2"
+	ids := verifAllIDs(w)
+	for k := 0; k < 2; k++ {
+		before := w.snap(ids)
+		var nodes NodeMask
+		var types TypeMask
+		if k == 0 {
+			nodes = NodeMask(1) << uint(verifChoice("node", w.n))
+		} else {
+			types = verifTypeMasks[verifChoice("rtypes", len(verifTypeMasks))]
+		}
+		zone, upd, err := w.a.Realloc(x, nodes, types)
+		if err != nil {
+			verifCover("bumped-realloc-refused")
+			verifAssert("C07.bumped.failed-realloc-noop", before.same(w.snap(ids), ids))
+			return
+		}
+		after := w.snap(ids)
+		if after.zones[x] != before.zones[x]|nodes {
+			verifCover("requester-pushed-further-by-overcommit")
+		}
+		verifAssert("C07.bumped.returned-zone-is-assigned", verifAnd(after.live[x], after.zones[x] == zone))
+		verifAssert("C07.bumped.realloc-never-removes-nodes", zone&before.zones[x] == before.zones[x])
+		verifAssert("C07.bumped.reservations-never-move", verifAnd(after.zones["r0"] == before.zones["r0"], after.zones["r1"] == before.zones["r1"]))
+		verifAssert("C07.bumped.updates-exclude-requester-and-unmoved", len(upd) == 0)
+	}
+}
